@@ -23,7 +23,7 @@ InitFile(k) == IF k = 0 THEN <<"absent">> ELSE <<"lines", Pg.inits[k].lines>>
 Init ==
   /\ t \in 1..Len(Progs) /\ f0 \in 0..Len(Progs[t].inits)
   /\ x = Index(Flatten(Progs[t].prog))
-  /\ st = Start(x, Progs[t].renames, IF f0 = 0 THEN <<"absent">> ELSE <<"lines", Progs[t].inits[f0].lines>>)
+  /\ st = Start(x, Progs[t].ord, Progs[t].renames, IF f0 = 0 THEN <<"absent">> ELSE <<"lines", Progs[t].inits[f0].lines>>)
   /\ hist = <<>> /\ lastSave = FALSE
 
 Do(k) ==
